@@ -709,7 +709,7 @@ def rank_of(ty):
 class GenReuse:
     """loop nests with allocations, memref.dim, subviews and affine.min for reuse-memref-allocs"""
 
-    def __init__(self, r, minfirst_nonconst=False, chain_bias=0.12, multi_bias=0.1, unreg_bias=0.08):
+    def __init__(self, r, minfirst_nonconst=False, chain_bias=0.12, multi_bias=0.1, unreg_bias=0.08, idxc_bias=0.2):
         self.r = r
         self.n = 0
         self.tags = 0
@@ -717,6 +717,7 @@ class GenReuse:
         self.chain_bias = chain_bias
         self.multi_bias = multi_bias
         self.unreg_bias = unreg_bias
+        self.idxc_bias = idxc_bias
 
     def fresh(self, p="v"):
         self.n += 1
@@ -732,6 +733,22 @@ class GenReuse:
         if not c:
             c = [v for v in vals if v[1] == IDX]
         return self.r.choice(c)[0]
+
+    def idxc(self, ind, vals, out, k):
+        """the index operand of a memref.dim: the function-level constant %ck, or an `arith.constant k` defined right here /
+        earlier in this or an enclosing loop body (MoveMemrefDims re-uses that constant op for the dim it rebuilds in front of
+        the loop and relies on LoopHoistPureOperations having moved it out first)"""
+        r = self.r
+        local = [v for v in vals if v[2] == f"idxc{k}"]
+        x = r.random()
+        if local and x < self.idxc_bias:
+            return r.choice(local)[0]
+        if x < self.idxc_bias * 1.6:
+            v = self.fresh("x")
+            out.append(f"{ind}{v} = arith.constant {k} : index")
+            vals.append((v, IDX, f"idxc{k}"))
+            return v
+        return f"%c{k}"
 
     def unreg(self, ind, vals, out):
         """an op of an unregistered dialect (`--allow-unregistered-dialect`): nothing is known about its effects"""
@@ -785,7 +802,7 @@ class GenReuse:
         elif k == "dim":
             m = r.choice(mems)
             v = self.fresh("d")
-            idx = f"%c{r.randrange(rank_of(m[1]))}"
+            idx = self.idxc(ind, vals, out, r.randrange(rank_of(m[1])))
             out.append(f'{ind}{v} = "memref.dim"({m[0]}, {idx}) : ({m[1]}, index) -> index')
             vals.append((v, IDX, "dim"))
         elif k == "min":
@@ -862,7 +879,8 @@ class GenReuse:
             elif how == "dim" and r.random() < 0.6:
                 v = self.fresh("d")
                 m = r.choice([x for x in vals if x[1] != IDX])
-                out.append(f'{ind}{v} = "memref.dim"({m[0]}, {r.choice(["%c0", "%c1"])}) : ({m[1]}, index) -> index')
+                ix_ = self.idxc(ind, vals, out, r.randrange(2))
+                out.append(f'{ind}{v} = "memref.dim"({m[0]}, {ix_}) : ({m[1]}, index) -> index')
                 vals.append((v, IDX, "dim"))
                 sizes.append(v)
             else:
@@ -875,7 +893,8 @@ class GenReuse:
         if r.random() < 0.6:
             out.append(f'{ind}"test.op"({sv}) {{tag = "{self.tag()}"}} : ({ty}) -> ()')
         d = self.fresh("d")
-        out.append(f'{ind}{d} = "memref.dim"({sv}, {r.choice(["%c0", "%c1"])}) : ({ty}, index) -> index')
+        ix_ = self.idxc(ind, vals, out, r.randrange(2))
+        out.append(f'{ind}{d} = "memref.dim"({sv}, {ix_}) : ({ty}, index) -> index')
         vals.append((d, IDX, "dim"))
         other = self.pick_idx(vals, prefer=r.choice([["dim"], ["const"], ["min"], None]))
         a = self.fresh("a")
@@ -901,7 +920,8 @@ class GenReuse:
                 if how == "argdim":
                     m = r.choice([v for v in vals if v[1] != IDX and v[2] in ("arg", "arg3")])
                     d = self.fresh("d")
-                    out.append(f'{ind}{d} = "memref.dim"({m[0]}, %c{r.randrange(rank_of(m[1]))}) : ({m[1]}, index) -> index')
+                    ix_ = self.idxc(ind, vals, out, r.randrange(rank_of(m[1])))
+                    out.append(f'{ind}{d} = "memref.dim"({m[0]}, {ix_}) : ({m[1]}, index) -> index')
                     vals.append((d, IDX, "dim"))
                     sizes.append(d)
                 else:
@@ -926,7 +946,8 @@ class GenReuse:
         qs = []
         for a in order:
             q = self.fresh("d")
-            out.append(f'{ind}{q} = "memref.dim"({sv}, %c{a}) : ({ty}, index) -> index')
+            ix_ = self.idxc(ind, vals, out, a)
+            out.append(f'{ind}{q} = "memref.dim"({sv}, {ix_}) : ({ty}, index) -> index')
             vals.append((q, IDX, "dim"))
             qs.append(q)
             if r.random() < 0.15:              # something unrelated in between
@@ -936,7 +957,8 @@ class GenReuse:
         if r.random() < 0.3:                   # a dim of a function argument next to them
             m = r.choice([v for v in vals if v[1] != IDX and v[2] in ("arg", "arg3")])
             q = self.fresh("d")
-            out.append(f'{ind}{q} = "memref.dim"({m[0]}, %c{r.randrange(rank_of(m[1]))}) : ({m[1]}, index) -> index')
+            ix_ = self.idxc(ind, vals, out, r.randrange(rank_of(m[1])))
+            out.append(f'{ind}{q} = "memref.dim"({m[0]}, {ix_}) : ({m[1]}, index) -> index')
             vals.append((q, IDX, "dim"))
             qs.append(q)
         for _ in range(r.choice([1, 1, 2])):
@@ -973,7 +995,8 @@ class GenReuse:
         bs = [k for k in range(rank_of(m[1])) if k != a] if r.random() < 0.85 else list(range(rank_of(m[1])))
         b = r.choice(bs)
         d = self.fresh("d")
-        out.append(f'{ind}{d} = "memref.dim"({m[0]}, %c{b}) : ({m[1]}, index) -> index')
+        ix_ = self.idxc(ind, vals, out, b)
+        out.append(f'{ind}{d} = "memref.dim"({m[0]}, {ix_}) : ({m[1]}, index) -> index')
         vals.append((d, IDX, "dim"))
         keep = r.random()
         if keep < 0.55:
@@ -1005,7 +1028,8 @@ class GenReuse:
         if r.random() < 0.5:
             out.append(f'{ind}"test.op"({sv}) {{tag = "{self.tag()}"}} : ({ty}) -> ()')
         q = self.fresh("d")
-        out.append(f'{ind}{q} = "memref.dim"({sv}, %c{a}) : ({ty}, index) -> index')
+        ix_ = self.idxc(ind, vals, out, a)
+        out.append(f'{ind}{q} = "memref.dim"({sv}, {ix_}) : ({ty}, index) -> index')
         vals.append((q, IDX, "dim"))
         al = self.fresh("a")
         if r.random() < 0.5:
@@ -1137,8 +1161,12 @@ class C17(Prop):
                     g = GenReuse(r, multi_bias=0.5)
                     yield {"kind": "reuse-multidim", "pass": REUSE, "src": g.prog(), "envs": g.envs()}
             else:
-                sp = r.choice(["neg", "step0", "iter", "badmin", "odd", "unreg", "unreg"])
-                if sp == "unreg":
+                sp = r.choice(["neg", "step0", "iter", "badmin", "odd", "unreg", "unreg", "both", "both"])
+                if sp == "both":
+                    # the two passes one after the other, in the order of the real pipeline (interaction / ordering faults)
+                    g = GenReuse(r, idxc_bias=0.35)
+                    yield {"kind": "reuse+canon", "pass": REUSE + "," + CANON, "src": g.prog(), "envs": g.envs()}
+                elif sp == "unreg":
                     g = GenReuse(r, unreg_bias=0.4)
                     yield {"kind": "reuse-unreg", "pass": REUSE, "src": g.prog(), "envs": g.envs()}
                 elif sp == "badmin":
@@ -1331,7 +1359,7 @@ class C17(Prop):
         if impl_out.get("raised"):
             if impl_out["raised"] == "RuntimeError" and "no constant value found" in impl_out.get("msg", ""):
                 return []  # the pass refuses the program loudly: no program is emitted
-            if case["pass"] == CANON and "iter_args" in case["src"] and impl_out["raised"] == "ValueError":
+            if CANON in case["pass"] and "iter_args" in case["src"] and impl_out["raised"] in ("ValueError", "VerifyException"):
                 return [{"what": f"MergeForLoops rewrites a loop with iter_args without them: {impl_out.get('msg')}", "finding": "D18"}]
             return [{"what": f"{case['pass']} raised {impl_out['raised']}: {impl_out.get('msg')}", "finding": None}]
         if "raised" in impl_out and "steps" not in impl_out:
@@ -1366,6 +1394,11 @@ class C17(Prop):
         except Exception as e:
             return [{"what": f"{case['pass']} output is not valid IR: {type(e).__name__}: {str(e)[:200]}", "finding": attribute(True)}]
         f1 = find_func(snaxrun.parse(case["src"]))
+        # static part: the emitted program is in SSA form (xDSL's verify() does not check dominance); this also sees a use before
+        # its definition that no execution of the chosen inputs reaches (zero-trip loops)
+        if use_before_def(f2) and not use_before_def(f1):
+            return [{"what": f"{case['pass']}: the rewritten program uses a value before its definition (an operand is not dominated "
+                             f"by its definition; index constants included)", "finding": attribute(True)}]
         for env in case["envs"]:
             t1 = run_func(f1, env)
             try:
